@@ -87,7 +87,7 @@ def run(tier, seed, open_findings):
     res = pmap(eval_doc, jobs, chunk=1)
     fails = [dict(case=dict(doc=r['doc'], ver=r['ver'], fault=b[0]), observed=b[1], required='invalid; unique path to error.elem; an error at the node or its parent; none outside chain/subtree') for r in res for b in r['bad']]
     cases = sum(r['cases'] for r in res)
-    return [run_nested(), run_all11(), run_all10(), result('C19.single_fault_location', f'{len(docs)} valid documents x every node x {len(FAULTS)} single-node faults x 2 classes', cases, fails, samples=[dict(doc=docs[0][:160], fault='bad_text')], distinct=cases)]
+    return [run_simple_content(), run_nested(), run_all11(), run_all10(), result('C19.single_fault_location', f'{len(docs)} valid documents x every node x {len(FAULTS)} single-node faults x 2 classes', cases, fails, samples=[dict(doc=docs[0][:160], fault='bad_text')], distinct=cases)]
 
 
 ALL11 = '<xs:schema xmlns:xs="http://www.w3.org/2001/XMLSchema"><xs:element name="r"><xs:complexType><xs:sequence><xs:element name="g" maxOccurs="unbounded"><xs:complexType><xs:all>' \
@@ -191,7 +191,56 @@ def run_nested():
                   sum(r['errors'] for r in res), fails, exhaustive=True, samples=[dict(doc=NESTED_DOCS[0][:140])])
 
 
+def sc_schema(ver):
+    inh = ' inheritable="true"' if ver == '1.1' else ''
+    ext = lambda base: f'<xs:complexType><xs:simpleContent><xs:extension base="{base}"><xs:attribute name="lang" type="xs:language"{inh}/><xs:attribute name="note" type="xs:token"/></xs:extension></xs:simpleContent></xs:complexType>'
+    return ('<xs:schema xmlns:xs="http://www.w3.org/2001/XMLSchema">'
+            '<xs:simpleType name="Code"><xs:restriction base="xs:string"><xs:pattern value="[A-Z]{2}[0-9]"/></xs:restriction></xs:simpleType>'
+            '<xs:simpleType name="IB"><xs:union memberTypes="xs:int xs:boolean"/></xs:simpleType><xs:simpleType name="Ints"><xs:list itemType="xs:int"/></xs:simpleType>'
+            '<xs:element name="r"><xs:complexType><xs:sequence maxOccurs="unbounded">'
+            f'<xs:element name="price">{ext("xs:decimal")}</xs:element><xs:element name="label" minOccurs="0">{ext("Code")}</xs:element>'
+            f'<xs:element name="u" minOccurs="0">{ext("IB")}</xs:element><xs:element name="l" minOccurs="0">{ext("Ints")}</xs:element>'
+            f'<xs:element name="sec" minOccurs="0"><xs:complexType><xs:sequence><xs:element name="p" maxOccurs="unbounded">{ext("xs:int")}</xs:element></xs:sequence><xs:attribute name="lang" type="xs:language"{inh}/></xs:complexType></xs:element>'
+            '</xs:sequence></xs:complexType></xs:element></xs:schema>')
+
+
+def run_simple_content():
+    """elements with simple content that carry attributes (inheritable ones under XSD 1.1: the validator goes on with a copy of its context): a bad text value is reported
+    with a path that selects exactly the damaged element, whatever attributes the element carries"""
+    import xmlschema, elementpath, copy, itertools
+    from xml.etree import ElementTree as ET
+    BAD = {'price': 'nine euros', 'label': 'ab1', 'u': 'maybe', 'l': '1 x 3', 'p': 'q'}
+    docs = []
+    for attrs in ('', ' lang="en"', ' note="n"', ' lang="fr" note="promo"'):
+        docs.append(f'<r><price{attrs}>9.5</price><label{attrs}>AB1</label><u{attrs}>true</u><l{attrs}>1 2 3</l><sec{attrs.replace(" note=\"n\"", "").replace(" note=\"promo\"", "")}><p{attrs}>1</p><p>2</p></sec><price>1</price><price{attrs}>2</price></r>')
+    bad = []; n = 0
+    for ver in ('1.0', '1.1'):
+        s = _cls(ver)(sc_schema(ver))
+        for doc in docs:
+            root = ET.fromstring(doc)
+            if not s.is_valid(root): bad.append(dict(case=dict(simple_content=True, ver=ver, doc=doc, node='-'), observed='the base document is invalid: ' + str([e.reason[:60] for e in s.iter_errors(root)][:1]), required='valid')); continue
+            nodes = [e for e in root.iter() if e.tag in BAD]
+            for k, node in enumerate(nodes):
+                n += 1
+                r2 = copy.deepcopy(root); target = [e for e in r2.iter() if e.tag in BAD][k]; target.text = BAD[target.tag]
+                for src_kind in ('element', 'text'):
+                    if src_kind == 'text':
+                        res = xmlschema.XMLResource(ET.tostring(r2, encoding='unicode')); top = res.root; tgt = [e for e in top.iter() if e.tag in BAD][k]
+                    else: top, tgt = r2, target
+                    errs = list(s.iter_errors(res if src_kind == 'text' else top)); case = dict(simple_content=True, ver=ver, doc=doc, node=f'{k}:{target.tag}', source=src_kind)
+                    if not errs: bad.append(dict(case=case, observed='the damaged document is reported valid', required='invalid')); continue
+                    for e in errs:
+                        if e.path is None or e.elem is None: bad.append(dict(case=case, observed=f'error without a location (path={e.path!r}, elem={e.elem!r}): {e.reason[:60]}', required='every error carries a path that selects exactly one node')); break
+                        sel = elementpath.select(top, e.path, namespaces=dict(e.namespaces or {}), strict=False)
+                        if len(sel) != 1 or sel[0] is not e.elem: bad.append(dict(case=case, observed=f'path {e.path} selects {len(sel)} node(s), not exactly error.elem', required='the path selects exactly one node')); break
+                    else:
+                        if not any(e.elem is tgt for e in errs): bad.append(dict(case=case, observed=f'no error at the damaged node: {[e.path for e in errs][:2]}', required='an error located at the damaged node'))
+    return result('C19.simple_content_with_attributes', f'{len(docs)} documents x every simple-content element (decimal, pattern, union, list, int below an element with the attribute) x a bad text x 2 sources x 2 classes; under XSD 1.1 the lang attribute is inheritable', n * 2, bad, exhaustive=True)
+
+
 def replay(check_name, case):
+    if case.get('simple_content'):
+        r = run_simple_content(); mine = [f for f in r['failures'] if f['case'] == case]; return dict(ok=not mine, observed=mine[:1], required='located at the damaged node')
     if case.get('nested_decl'):
         r = eval_nested((case['ver'], case['doc'])); return dict(ok=not r['bad'], observed=r['bad'][:2], required='path selects error.elem')
     if case.get('all10'):
